@@ -227,6 +227,7 @@ fn hash_str(s: &str) -> u64 {
 const KEPT_PROBES: &[&str] = &[
     "analysis",
     "auto_diag_seen",
+    "auto_diag_first_seen",
     "lock_timeout",
     "harness",
     "check_file_begin",
